@@ -96,6 +96,15 @@ def run_shard(shard):
         va, vb = a.values(), b.values()
         case = {'shard': dict(stratum=shard['stratum'], cfg=cfg, left=['list', [list(ka)]], right=['list', [list(kb)]], chunk=(0, 1))}
         got = {}
+        # the implementation runs first: the oracle reads alg.signs, which would fill a lazily built table (d > 6) for it
+        raw = {}
+        for op in OPS:
+            try:
+                raw[op] = ('ok', mvdict(getattr(a, op)(b)))
+            except Trap as e:
+                raw[op] = ('trap', e)
+            except Exception as e:
+                raw[op] = ('exc', e)
         ab = gp_expected(alg, ka, va, kb, vb)
         ba = gp_expected(alg, kb, vb, ka, va)
         for op in OPS:
@@ -112,14 +121,14 @@ def run_shard(shard):
             repro = (f"from kingdon import Algebra\nalg = {cfg_repro(cfg)}\na = alg.multivector(keys={tuple(ka)}, name='a'); "
                      f"b = alg.multivector(keys={tuple(kb)}, name='b')\nprint(a.{op}(b))")
             key = f'{op}:{len(ka)}x{len(kb)}'
-            try:
-                g, dup = mvdict(getattr(a, op)(b))
-            except Trap as e:
-                res.violate(violation(key + ':trap', f'{op} {name} {ka} x {kb}: {e}', case, 'value independent control flow', str(e), repro))
+            st, val = raw[op]
+            if st == 'trap':
+                res.violate(violation(key + ':trap', f'{op} {name} {ka} x {kb}: {val}', case, 'value independent control flow', str(val), repro))
                 continue
-            except Exception as e:
-                res.violate(violation(key + ':raises', f'{op} {name} {ka} x {kb} raises {type(e).__name__}: {e}', case, show(exp), repr(e), repro))
+            if st == 'exc':
+                res.violate(violation(key + ':raises', f'{op} {name} {ka} x {kb} raises {type(val).__name__}: {val}', case, show(exp), repr(val), repro))
                 continue
+            g, dup = val
             got[op] = g
             bad = eq_elem(g, exp)
             missing = sorted(nz - set(g))
